@@ -35,6 +35,7 @@ def main(argv):
         replay = argv[argv.index('--replay') + 1]
 
     logging.disable(logging.CRITICAL)
+    preload()
     try:
         mod = importlib.import_module('vp.checks.' + pid.lower())
     except Exception:
@@ -98,6 +99,20 @@ def main(argv):
         print('INCONCLUSIVE property=%s only %d evaluations (< %d)' % (pid, stats.evaluations, minimum))
         return 2
     return 0
+
+
+def preload():
+    """Import the whole library before any case is generated: Hypothesis mixes constants found in already-imported
+    non-library modules into its draws, so the cases of a seed must not depend on what a worker imported earlier."""
+    for name in ('cpppo', 'cpppo.automata', 'cpppo.dotdict', 'cpppo.misc', 'cpppo.server.network', 'cpppo.server.tnet',
+                 'cpppo.server.tnetstrings', 'cpppo.server.enip', 'cpppo.server.enip.parser', 'cpppo.server.enip.device',
+                 'cpppo.server.enip.logix', 'cpppo.server.enip.ucmm', 'cpppo.server.enip.client', 'cpppo.server.enip.get_attribute',
+                 'cpppo.server.enip.main', 'cpppo.server.enip.defaults', 'cpppo.history', 'cpppo.history.times', 'cpppo.history.files',
+                 'cpppo.remote.plc_modbus', 'pylogix'):
+        try:
+            importlib.import_module(name)
+        except Exception:
+            pass
 
 
 def do_replay(mod, pid, path, known):
